@@ -369,7 +369,7 @@ type job struct {
 	l       *layout
 	streams func(*layout) [][]rec
 	rks     []int
-	trunc   bool // also run the truncation sub-check (streams of <= 2 records)
+	trunc   int // also run the truncation sub-check on streams of at most this many records
 }
 
 func compose(w wrap, fs ...field) []elem {
@@ -417,7 +417,7 @@ func generate(b *bounds, emit func(job)) {
 			for _, d := range ds {
 				for _, enc := range b.encs {
 					t := t
-					emit(job{mkLayout("single-text", textField(t, nf, d, enc)), func(l *layout) [][]rec { return textStreams(l, b, t) }, rkFor(true), true})
+					emit(job{mkLayout("single-text", textField(t, nf, d, enc)), func(l *layout) [][]rec { return textStreams(l, b, t) }, rkFor(true), 2})
 				}
 			}
 		}
@@ -431,14 +431,14 @@ func generate(b *bounds, emit func(job)) {
 			}
 			for _, d := range ds {
 				t := t
-				emit(job{mkLayout("single-number", numField(t, nf, d)), func(l *layout) [][]rec { return numStreams(l, t) }, rkFor(true), true})
+				emit(job{mkLayout("single-number", numField(t, nf, d)), func(l *layout) [][]rec { return numStreams(l, t) }, rkFor(true), 2})
 			}
 		}
 	}
 	// S3: header blocks: count format sweep, key sweep, value sweep, then key x value cross product
 	hs := func(l *layout) [][]rec { return hdrStreams(l, b) }
 	seenHdr := map[string]bool{}
-	emitHdr := func(es []elem, trunc bool) {
+	emitHdr := func(es []elem, trunc int) {
 		l := mkLayout("single-headers", es)
 		if seenHdr[l.str] {
 			return
@@ -453,12 +453,12 @@ func generate(b *bounds, emit func(job)) {
 		}
 		for _, d := range ds {
 			for variant := 0; variant < 4; variant++ {
-				emitHdr(hdrField(nf, d, innerKV(byteNF, encPlain, byteNF, encPlain, sp, variant)), true)
-				emitHdr(hdrField(byteNF, sp, innerKV(nf, encPlain, nf, encPlain, d, variant)), true)
+				emitHdr(hdrField(nf, d, innerKV(byteNF, encPlain, byteNF, encPlain, sp, variant)), 2)
+				emitHdr(hdrField(byteNF, sp, innerKV(nf, encPlain, nf, encPlain, d, variant)), 2)
 			}
 			for _, enc := range b.encs {
-				emitHdr(hdrField(byteNF, sp, innerKV(nf, enc, byteNF, encPlain, d, 0)), true)
-				emitHdr(hdrField(byteNF, sp, innerKV(byteNF, encPlain, nf, enc, d, 0)), true)
+				emitHdr(hdrField(byteNF, sp, innerKV(nf, enc, byteNF, encPlain, d, 0)), 2)
+				emitHdr(hdrField(byteNF, sp, innerKV(byteNF, encPlain, nf, enc, d, 0)), 2)
 			}
 		}
 	}
@@ -467,7 +467,7 @@ func generate(b *bounds, emit func(job)) {
 			for _, kenc := range b.encs {
 				for _, v := range b.hdrNF {
 					for _, venc := range b.encs {
-						emitHdr(hdrField(cnt, sp, innerKV(k, kenc, v, venc, sp, 0)), false)
+						emitHdr(hdrField(cnt, sp, innerKV(k, kenc, v, venc, sp, 0)), 0)
 					}
 				}
 			}
@@ -497,7 +497,7 @@ func generate(b *bounds, emit func(job)) {
 	}
 	cs := func(l *layout) [][]rec { return compositeStreams(l, b) }
 	// P: every ordered pair of fields with different targets
-	pairs := func(fs []field, wraps []wrap, seen map[string]bool) {
+	pairs := func(fs []field, wraps []wrap, seen map[string]bool, rks []int) {
 		for _, w := range wraps {
 			for _, a := range fs {
 				for _, c := range fs {
@@ -509,15 +509,15 @@ func generate(b *bounds, emit func(job)) {
 						continue
 					}
 					seen[l.str] = true
-					emit(job{l, cs, rkFor(false), false})
+					emit(job{l, cs, rks, 0})
 				}
 			}
 		}
 	}
 	seenPair := map[string]bool{}
-	pairs(mkFields(b.pairNF, b.encs), b.wraps, seenPair)
+	pairs(mkFields(b.pairNF, b.encs), b.wraps, seenPair, rkFor(false))
 	if b.pairFullNF != nil {
-		pairs(mkFields(b.pairFullNF, b.encs), allWraps[:1], seenPair)
+		pairs(mkFields(b.pairFullNF, b.encs), allWraps[:1], seenPair, rkOne)
 	}
 
 	// SF: all sizes first, then the payloads
@@ -531,7 +531,7 @@ func generate(b *bounds, emit func(job)) {
 						texts = append(texts, elem{kind: eText, target: t, enc: enc})
 					}
 					es := cat(litElem(w.pre), sizes, litElem(w.sep), texts, litElem(w.suf))
-					emit(job{mkLayout("sizes-first", es), cs, rkFor(true), true})
+					emit(job{mkLayout("sizes-first", es), cs, rkFor(true), 2})
 				}
 			}
 		}
@@ -548,6 +548,9 @@ func generate(b *bounds, emit func(job)) {
 		rev[len(base)-1-i] = t
 	}
 	orders = append(orders, rev, []int{tPart, tTopic, tOff, tKey, tEpoch, tValue, tTime, tHdrs, tPid, tPepoch})
+	if !ev.Thorough() {
+		orders = [][]int{orders[0], orders[5], orders[10], orders[11]}
+	}
 	type assign func(t int) (numFmt, int)
 	var assigns []assign
 	fullNF := allNF
@@ -581,7 +584,7 @@ func generate(b *bounds, emit func(job)) {
 						fs = append(fs, field{t, numField(t, nf, sp)})
 					}
 				}
-				emit(job{mkLayout("full", compose(w, fs...)), cs, rkFor(true), true})
+				emit(job{mkLayout("full", compose(w, fs...)), cs, rkFor(true), 1})
 			}
 		}
 	}
@@ -769,7 +772,7 @@ func runJob(j job, s *stats) {
 				ok = false
 			}
 		}
-		if ok && j.trunc && len(recs) <= 2 {
+		if ok && len(recs) <= j.trunc {
 			if fl := guard(func() *failure { return truncated(l, stream, bnd, recs, &s.ti, br) }); fl != nil {
 				s.record(l, recs, rkBytes, stream, fl)
 			}
